@@ -210,28 +210,30 @@ fn compare(ctx: &Ctx, beh: &Value, reply: &Value) {
             ctx.stats.lock().unwrap().indefinite_cases += 1;
             continue;
         }
-        let cmp = |kind: &str, name: &str, exp: &Value, got: Value| {
+        // (the observed value is compared without its bookkeeping fields, but reported with them: the
+        //  cut-off note is what identifies a known finding)
+        let cmp = |kind: &str, name: &str, exp: &Value, raw: Value| {
             ctx.bump(0, kind);
-            if *exp != got {
-                ctx.violation(kind, beh, s, name, exp.clone(), got);
+            if *exp != strip_iter_meta(&raw) {
+                ctx.violation(kind, beh, s, name, exp.clone(), raw);
             }
         };
-        cmp("span", "replace0", &case["r0"], strip_iter_meta(&r(1)));
+        cmp("span", "replace0", &case["r0"], r(1));
         if case["capdef"] != false {
-            cmp("group", "replace2", &case["rg"], strip_iter_meta(&r(2)));
+            cmp("group", "replace2", &case["rg"], r(2));
         }
-        cmp("tok", "tokenize", &case["tok"], strip_iter_meta(&r(3)));
+        cmp("tok", "tokenize", &case["tok"], r(3));
         let exp_ana = &case["ana"];
         let got_ana = strip_iter_meta(&r(4));
         if exp_ana["k"] != "ok" || got_ana["k"] != "ok" {
-            cmp("anaflat", "analyze", exp_ana, got_ana);
+            cmp("anaflat", "analyze", exp_ana, r(4));
         } else {
             let (ef, gf) = (flat(&exp_ana["v"]), flat(&got_ana["v"]));
             ctx.bump(0, "anaflat");
             if ef != gf {
-                ctx.violation("anaflat", beh, s, "analyze", exp_ana.clone(), got_ana);
+                ctx.violation("anaflat", beh, s, "analyze", exp_ana.clone(), r(4));
             } else if case["treedef"] == true {
-                cmp("tree", "analyze", exp_ana, got_ana);
+                cmp("tree", "analyze", exp_ana, r(4));
             }
         }
     }
